@@ -1,6 +1,7 @@
 import MqttVerif.Conn.Step
 import MqttVerif.Monitors
 import MqttVerif.Alloc.Lemmas
+import MqttVerif.Conn.Lemmas.Resend
 /-!
 # Helper lemmas for C08 — part 1: the packet-id allocator inside the connection
 
